@@ -793,6 +793,8 @@ func (v *FnVC) ret(x *ssa.Return) {
 			env.vars[n] = results[i]
 		}
 	}
+	v.ghostSets("return", env)
+	env.st = v.st
 	site := ""
 	if v.fn.Signature.Results().Len() >= 0 {
 		site = "@ret" + strconv.Itoa(v.retCnt)
